@@ -1173,6 +1173,17 @@ func callBuiltin(caller *frame, callpos token.Pos, fn *ssa.Builtin, args []value
 	panic(engineBug{"unknown built-in: " + fn.Name()})
 }
 
+// reverseIfAsked: Go leaves the iteration order of maps unspecified; the engine iterates in
+// a fixed order, and in the opposite order while the harness has asked for it
+// (vpReverseMapOrder), so that a result that depends on the order shows as a difference.
+func reverseIfAsked(fr *frame, it *snapIter) {
+	if fr != nil && fr.i != nil && fr.i.reverseMaps {
+		for a, b := 0, len(it.kv)-1; a < b; a, b = a+1, b-1 {
+			it.kv[a], it.kv[b] = it.kv[b], it.kv[a]
+		}
+	}
+}
+
 func rangeIter(fr *frame, x value, t types.Type) iter {
 	switch x := x.(type) {
 	case map[value]value:
@@ -1180,12 +1191,14 @@ func rangeIter(fr *frame, x value, t types.Type) iter {
 		for _, k := range sortedKeys(x) {
 			it.kv = append(it.kv, [2]value{k, x[k]})
 		}
+		reverseIfAsked(fr, it)
 		return it
 	case *hashmap:
 		it := &snapIter{}
 		for _, e := range x.sortedEntries() {
 			it.kv = append(it.kv, [2]value{e.key, e.value})
 		}
+		reverseIfAsked(fr, it)
 		return it
 	case string:
 		return &stringIter{Reader: strings.NewReader(x)}
